@@ -4,6 +4,7 @@ package c14
 import (
 	"context"
 	"fmt"
+	errorsv3 "gopkg.in/hedzr/errors.v3"
 	"log"
 	logslog "log/slog"
 	"runtime"
@@ -88,6 +89,7 @@ type scenario struct {
 	// LateSkip (SetSkip only): the skip count is set AFTER the log/slog handler and the std log bridge
 	// were built on the logger - it is a property of the logger, consulted per record
 	LateSkip bool
+	Repeat   int // the issuing statement runs this many times in a row (0/1: once)
 	PrevSkip int // -1: none; otherwise SetSkip(PrevSkip) is called before the final skip is set
 }
 
@@ -165,90 +167,103 @@ func run(t vlib.TB, test string, sc scenario) {
 	}
 	vlib.SetFlagsVia(sc.FlagsHow, flags, slog.Lcaller|slog.Llineno|slog.Lcallerpackagename|slog.Lprivacypath) // after NewSlogHandler, which edits the caller flag
 
-	func() {
-		defer func() {
-			if p := recover(); p != nil {
-				t.Fatalf("C14 %s: call panicked: %v", sc, p)
-			}
-		}()
-		switch {
-		case sc.Depth == 0:
-			c.leaf(c)
-		case sc.Inlinable:
-			[]func(*cx){wrapI1, wrapI2, wrapI3, wrapI4}[sc.Depth-1](c)
-		default:
-			wrapNoInline(c, sc.Depth)
-		}
-	}()
-	writes := log1.Writes()
-	if len(writes) != 1 {
-		t.Fatalf("C14 %s: expected exactly one record, got %d: %v", sc, len(writes), log1.Snapshot())
-	}
-	p := writes[0].Payload
+	// the same statement issues the record sc.Repeat times in a row (per-site caches); every record is checked
 	var file, fn string
 	line := -1
-	switch sc.Format {
-	case "json":
-		o, err := vlib.DecodeJSONRecord(p)
-		if err != nil {
-			t.Fatalf("C14 %s: %v: %q", sc, err, p)
+	reps := sc.Repeat
+	if reps < 1 {
+		reps = 1
+	}
+	for rep := 0; rep < reps; rep++ {
+		log1.Reset()
+		func() {
+			defer func() {
+				if p := recover(); p != nil {
+					t.Fatalf("C14 %s: call panicked: %v", sc, p)
+				}
+			}()
+			switch {
+			case sc.Depth == 0:
+				c.leaf(c)
+			case sc.Inlinable:
+				[]func(*cx){wrapI1, wrapI2, wrapI3, wrapI4}[sc.Depth-1](c)
+			default:
+				wrapNoInline(c, sc.Depth)
+			}
+		}()
+		writes := log1.Writes()
+		if len(writes) != 1 {
+			t.Fatalf("C14 %s: expected exactly one record, got %d: %v", sc, len(writes), log1.Snapshot())
 		}
-		if co, ok := o.Vals["caller"].(*vlib.JObj); ok {
-			file, _ = co.Vals["file"].(string)
-			fn, _ = co.Vals["function"].(string)
-			if n, ok := co.Vals["line"].(interface{ Int64() (int64, error) }); ok {
-				v, _ := n.Int64()
-				line = int(v)
+		p := writes[0].Payload
+		file, fn, line = "", "", -1
+		switch sc.Format {
+		case "json":
+			o, err := vlib.DecodeJSONRecord(p)
+			if err != nil {
+				t.Fatalf("C14 %s: %v: %q", sc, err, p)
+			}
+			if co, ok := o.Vals["caller"].(*vlib.JObj); ok {
+				file, _ = co.Vals["file"].(string)
+				fn, _ = co.Vals["function"].(string)
+				if n, ok := co.Vals["line"].(interface{ Int64() (int64, error) }); ok {
+					v, _ := n.Int64()
+					line = int(v)
+				}
+			}
+		case "logfmt":
+			line1 := p
+			if k := strings.IndexByte(string(p), '\n'); k >= 0 && !vlib.ProductionMode() {
+				line1 = p[:k+1] // under go test an error value is followed by its multi-line dump
+			}
+			pairs, err := vlib.ParseLogfmtRecord(line1)
+			if err != nil {
+				t.Fatalf("C14 %s: %v: %q", sc, err, p)
+			}
+			for _, pr := range pairs {
+				switch pr.Key {
+				case "caller.file":
+					file = pr.Str
+				case "caller.line":
+					line, _ = strconv.Atoi(pr.Raw)
+				case "caller.function":
+					fn = pr.Str
+				}
+			}
+		default:
+			txt := strings.SplitN(vlib.SimulateSGR(p).Text, "\n", 2)[0]
+			f := strings.Fields(txt)
+			if len(f) >= 2 {
+				fn = f[len(f)-1]
+				tail := f[len(f)-2]
+				if i := strings.LastIndexByte(tail, ':'); i > 0 {
+					file = tail[:i]
+					line, _ = strconv.Atoi(tail[i+1:])
+				}
 			}
 		}
-	case "logfmt":
-		pairs, err := vlib.ParseLogfmtRecord(p)
-		if err != nil {
-			t.Fatalf("C14 %s: %v: %q", sc, err, p)
+		want := c.frames[sc.Skip]
+		// the path policy may give different (equally allowed) results from call to call when the file lies
+		// under several mappings (Go map order; C18/C09 own that): accept any of them
+		wantFiles := map[string]bool{}
+		for i := 0; i < 16; i++ {
+			wantFiles[slog.Safety(want.File)] = true
 		}
-		for _, pr := range pairs {
-			switch pr.Key {
-			case "caller.file":
-				file = pr.Str
-			case "caller.line":
-				line, _ = strconv.Atoi(pr.Raw)
-			case "caller.function":
-				fn = pr.Str
+		wantFile := slog.Safety(want.File)
+		if wantFiles[file] {
+			wantFile = file
+		}
+		wantFn := want.Func
+		if sc.Format == "color" {
+			if i := strings.LastIndex(wantFn, "/"); i >= 0 {
+				wantFn = wantFn[i+1:]
 			}
 		}
-	default:
-		txt := strings.SplitN(vlib.SimulateSGR(p).Text, "\n", 2)[0]
-		f := strings.Fields(txt)
-		if len(f) >= 2 {
-			fn = f[len(f)-1]
-			tail := f[len(f)-2]
-			if i := strings.LastIndexByte(tail, ':'); i > 0 {
-				file = tail[:i]
-				line, _ = strconv.Atoi(tail[i+1:])
-			}
+		if file != wantFile || line != want.Line || fn != wantFn {
+			vlib.Discrep(t, "C14/attribution:"+st.Kind, "C14 %s: record says %s:%d %s, the issuing statement %d frame(s) up is %s:%d %s (all frames: %v); payload %q",
+				sc, file, line, fn, sc.Skip, wantFile, want.Line, wantFn, c.frames[:sc.Depth+1], p)
 		}
-	}
-	want := c.frames[sc.Skip]
-	// the path policy may give different (equally allowed) results from call to call when the file lies
-	// under several mappings (Go map order; C18/C09 own that): accept any of them
-	wantFiles := map[string]bool{}
-	for i := 0; i < 16; i++ {
-		wantFiles[slog.Safety(want.File)] = true
-	}
-	wantFile := slog.Safety(want.File)
-	if wantFiles[file] {
-		wantFile = file
-	}
-	wantFn := want.Func
-	if sc.Format == "color" {
-		if i := strings.LastIndex(wantFn, "/"); i >= 0 {
-			wantFn = wantFn[i+1:]
-		}
-	}
-	if file != wantFile || line != want.Line || fn != wantFn {
-		vlib.Discrep(t, "C14/attribution:"+st.Kind, "C14 %s: record says %s:%d %s, the issuing statement %d frame(s) up is %s:%d %s (all frames: %v); payload %q",
-			sc, file, line, fn, sc.Skip, wantFile, want.Line, wantFn, c.frames[:sc.Depth+1], p)
-	}
+	} // rep
 	key := ""
 	if sc.Skip >= 1 || st.Kind != "native" {
 		key = sc.String()
@@ -258,6 +273,9 @@ func run(t vlib.TB, test string, sc scenario) {
 		vlib.Sample(test+"/"+st.Kind, map[string]any{"scenario": sc.String(), "reported": fmt.Sprintf("%s:%d %s", file, line, fn)})
 	}
 }
+
+// an error value that carries its own stack trace (created here, not at the logging statements)
+var stackErr = errorsv3.New("error with a stack of its own")
 
 var formats = []string{"json", "logfmt", "color"}
 var kinds = []string{"root", "child", "default"}
@@ -274,8 +292,9 @@ func TestSampled(t *testing.T) {
 		sc.Inlinable = rapid.Bool().Draw(t, "inlinable")
 		sc.Privacy = rapid.IntRange(0, 3).Draw(t, "privacy") != 0
 		sc.PrevSkip = rapid.SampledFrom([]int{-1, -1, 0, 1, 3}).Draw(t, "previousSkip")
-		sc.FlagsHow = rapid.SampledFrom([]int{0, 0, 1, 2, 3}).Draw(t, "flagsHow")
+		sc.FlagsHow = rapid.SampledFrom([]int{0, 0, 1, 2, 3, 4}).Draw(t, "flagsHow")
 		sc.LateSkip = rapid.Bool().Draw(t, "skipSetAfterAdaptersBuilt")
+		sc.Repeat = rapid.SampledFrom([]int{1, 1, 2, 3}).Draw(t, "recordsFromTheSameStatement")
 		run(t, "TestSampled", sc)
 	})
 }
